@@ -174,3 +174,51 @@ MANIFEST_TEXT = {
             'note': 'verdict derived from the policy value by an independent judge written from the statement; error texts never inspected',
             'technique': 'property-based testing (rapid), fault injection into valid inputs, differential check for case-variant operations'},
 }
+
+PROPS['C13'] = {
+    'level': 'exploration',
+    'rule': ('kinds: history = (policy, other policies, k): compile the same value k times interleaved with other (also invalid) policies and an equal fresh value, '
+             'programs must be identical and the exported fields plus every slice header (pointer/len/cap) of the policy unchanged; concurrent (race-detector build) = '
+             '2..16 goroutines released on a barrier compile deep or shallow copies (sharing all slices) while doing arch lookups and text conversions, any race report '
+             'fails; text = FilterFlag/Action text forms of 0..15 and random values repeated 64 times; processes = 6..12 fresh processes compile the same seeded corpus '
+             'and print digests; a case is non-trivial iff the policy has >= 2 same-name conditional entries (merge path), or copies share slices, or the flag has >= 2 '
+             'known bits, or it is a cross-process round; distinct by hash of the case JSON'),
+    'assumptions': ['schedules are sampled (barrier start, 2..16 goroutines), not enumerated', 'the Go race detector reports the races that occur in the sampled schedules',
+                    '"caller\'s policy" = exported fields and slice headers; the unexported arch cache may be filled in'],
+    'required_classes': {'all': ['same-name-entries-merged', 'interleaved-with-other-policies', 'shared-slices', 'concurrent', 'text', 'processes']},
+    'units': [
+        {'test': 'TestC13History', 'checks': {'quick': 3000, 'thorough': 90000}, 'shards': {'quick': 4, 'thorough': 16}, 'timeout': {'quick': 300, 'thorough': 3000}},
+        {'test': 'TestC13Concurrent', 'race': True, 'checks': {'quick': 600, 'thorough': 20000}, 'shards': {'quick': 3, 'thorough': 8},
+         'env': {'GORACE': 'halt_on_error=1'}, 'timeout': {'quick': 400, 'thorough': 3000}},
+        {'test': 'TestC13Text', 'checks': {'quick': 2000, 'thorough': 50000}, 'timeout': {'quick': 120, 'thorough': 600}},
+        {'test': 'TestC13Processes', 'helpers': ['digest'], 'timeout': {'quick': 300, 'thorough': 1200}},
+    ],
+}
+MANIFEST_TEXT['C13'] = {'claim': 'repeated/interleaved compilations give identical programs and leave the policy (exported fields and slice headers) untouched; concurrent compilations of deep and slice-sharing copies under the race detector; text forms stable; digests of a seeded corpus identical across fresh processes',
+                        'note': 'schedules are sampled, not enumerated; race freedom is as far as the race detector sees the sampled runs',
+                        'technique': 'property-based testing (rapid) with metamorphic/idempotence oracles; race-detector build; cross-process differential'}
+
+PROPS['C14'] = {
+    'level': 'exploration',
+    'rule': ('kinds: parse = strings offered to Action.Unpack / Operation.Unpack: every documented name in all ASCII case patterns (exhaustive, <= 4096 per name), '
+             'near-miss edits, printed forms, arbitrary and unicode look-alike strings; accepted iff the ASCII-lowercased input is a documented name, value == vendored constant, '
+             'printed form parses back; config = generated policies (x86_64 host table, all actions/operations, indices 0..5, operands incl. >= 2^63) rendered by a '
+             'harness-side config writer with generated spelling, or marshalled with yaml.Marshal / json.Marshal, loaded exactly as cmd/sandbox does (go-ucfg yaml + Unpack) '
+             'and compiled: program must be identical to the literal policy\'s; non-trivial: parse input differs from the canonical spelling or is unknown; config policy has '
+             'an index != 0, an operand >= 2^32 or an action other than allow/errno; distinct by hash of the case JSON'),
+    'assumptions': ['the documented configuration dialect is the one of cmd/sandbox/seccomp.yml (keys default_action, syscalls, action, names, names_with_args, name, arguments, argument, operation, value)',
+                    'non-ASCII strings that case-fold onto a documented name are outside the statement (no claim)',
+                    'go-ucfg\'s JSON front end is not the documented path and is not asserted'],
+    'required_classes': {'all': ['cfg:writer', 'cfg:yaml-marshal', 'cfg:json-marshal', 'cfg-index-5', 'cfg-operand-2^64-1', 'cfg-operand>=2^63',
+                                 'parse:non-canonical-case', 'parse:unknown-name', 'parse:action', 'parse:operation'] +
+                         ['cfg-action:' + a for a in ('kill_thread', 'kill_process', 'trap', 'errno', 'trace', 'log', 'allow')] +
+                         ['cfg-op:' + o for o in ('Equal', 'NotEqual', 'GreaterThan', 'LessThan', 'GreaterOrEqual', 'LessOrEqual', 'BitsSet', 'BitsNotSet')]},
+    'units': [
+        {'test': 'TestC14Parsers', 'checks': {'quick': 20000, 'thorough': 1000000}, 'shards': {'quick': 2, 'thorough': 16}, 'timeout': {'quick': 300, 'thorough': 3000}},
+        {'test': 'TestC14ParserNamesExhaustive', 'timeout': {'quick': 300, 'thorough': 300}},
+        {'test': 'TestC14Config', 'checks': {'quick': 3000, 'thorough': 150000}, 'shards': {'quick': 6, 'thorough': 16}, 'timeout': {'quick': 300, 'thorough': 3000}},
+    ],
+}
+MANIFEST_TEXT['C14'] = {'claim': 'parsers accept exactly the documented names in any ASCII case and return the vendored constants; generated policies rendered to the documented YAML dialect with generated spelling, or marshalled to YAML/JSON, and loaded as the sandbox command does compile to the identical program',
+                        'note': 'trusts go-ucfg and yaml.v2 as the documented loading path; host architecture only (the loader cannot select another table)',
+                        'technique': 'property-based testing (rapid): parser oracle from the vendored name table, round-trip / differential compilation oracle; exhaustive case patterns'}
